@@ -372,7 +372,7 @@ func cmdPop(fs *flag.FlagSet) {
 					CompletionHooks: lang.CompletionHooks{{Name: "hk"}}}}}
 				src2 := "attr = \"" + pfx + "\"\n"
 				env = envFor(s, []byte(src2))
-				dctx := decoder.NewDecoderContext()
+				dctx := newDecCtx()
 				hn := hookN
 				dctx.CompletionHooks["hk"] = func(ctx context.Context, value cty.Value) ([]decoder.Candidate, error) {
 					cs := []decoder.Candidate{}
